@@ -16,7 +16,7 @@ META = {
     "bounds": {"quick": {"n": "0..3", "key range": "0..3 (lst -1..3)"}, "thorough": {"n": "0..4", "key range": "0..4"}},
     "outside": ["lists longer than the bound", "non-integer key values", "nan keys"],
 }
-REQUIRED_COVERS = {"any": ["task:reordered", "task:tie", "worker:reordered", "worker:mw-equal-not-identical", "facility:reordered", "workplace:reordered", "c11:strict-priority-pair", "c11:resource-rule-accepted"]}
+REQUIRED_COVERS = {"any": ["task:reordered", "task:tie", "worker:reordered", "worker:mw-equal-not-identical", "facility:reordered", "workplace:reordered", "c11:strict-priority-pair", "c11:resource-rule-accepted", "c11:worker-choice"]}
 
 TASK_MODES = list(range(9))
 
@@ -194,7 +194,7 @@ def sort_facilities(p, ctx):
 
 
 def sort_workplaces(p, ctx):
-    from pDESy.model.base_facility import BaseFacility
+    from pDESy.model.base_facility import BaseFacility, BaseFacilityState
     from pDESy.model.base_workplace import BaseWorkplace
     from pDESy.model.base_component import BaseComponent
     from pDESy.model.base_priority_rule import sort_workplace_list, WorkplacePriorityRuleMode
@@ -206,7 +206,10 @@ def sort_workplaces(p, ctx):
         facs = []
         for j in range(2):
             sv = p["k%d_%d" % (i, j)]
-            facs.append(BaseFacility("f%d_%d" % (i, j), ID="f%d_%d" % (i, j), workamount_skill_mean_map=({"a": sv} if sv >= 0 else {})))
+            fc = BaseFacility("f%d_%d" % (i, j), ID="f%d_%d" % (i, j), workamount_skill_mean_map=({"a": sv} if sv >= 0 else {}))
+            # the documented key (sum of skill points) does not depend on the facilities' momentary state
+            fc.state = BaseFacilityState({0: 0, 1: 1, 2: -1}[(i + j) % 3])
+            facs.append(fc)
         wp = BaseWorkplace("wp%d" % i, ID="wp%d" % i, facility_list=facs, max_space_size=p["cap%d" % i])
         wp.placed_component_list = [BaseComponent("c%d" % i, ID="c%d" % i, space_size=p["use%d" % i])]
         wps.append(wp)
